@@ -86,7 +86,8 @@ def py_status(s):
         elif kw == "errorComment":
             ds.ErrorComment = f"c{v}"
         elif kw == "offendingElement":
-            ds.OffendingElement = Tag(0x0010, v)
+            # (0000,0901) is AT with VM 1-n: odd values name two offending elements
+            ds.OffendingElement = [Tag(0x0010, v), Tag(0x0020, v)] if v % 2 else Tag(0x0010, v)
         elif kw == "affClass":
             ds.AffectedSOPClassUID = f"1.2.3.{v}"
         elif kw == "affInst":
@@ -406,6 +407,15 @@ def _num(s, prefix):
     return int(s[len(prefix):])
 
 
+def _oe_num(oe):
+    """the number an OffendingElement value stands for - if it is the complete list `py_status` built for it"""
+    vals = [oe] if isinstance(oe, (int, tuple)) or not hasattr(oe, "__iter__") else list(oe)
+    tags = [int(Tag(x)) for x in vals]
+    v = tags[0] & 0xFFFF
+    want = [0x00100000 | v] + ([0x00200000 | v] if v % 2 else [])
+    return v if tags == want else -len(tags)
+
+
 def snapshot(p, cx, prim):
     ident, ds = _ident(p, prim)
     ec = getattr(p, "ErrorComment", None)
@@ -423,7 +433,7 @@ def snapshot(p, cx, prim):
         "warn": getattr(p, "NumberOfWarningSuboperations", None),
         "comp": getattr(p, "NumberOfCompletedSuboperations", None),
         "ec": None if ec is None else _num(ec, "c"),
-        "oe": None if oe is None else int(Tag(oe)) & 0xFFFF,
+        "oe": None if oe is None else _oe_num(oe),
         "eid": eid,
         "ac": None if ac is None or str(ac) == REQ_CLASS else _num(ac, "1.2.3."),
         "ai": None if ai is None or str(ai) == REQ_INST else _num(ai, "1.2.4."),
